@@ -60,18 +60,17 @@ impl super::PathLocator for LuauPathLocator<'_, '_, '_> {
 
             if source_name == "@self" {
                 path = get_relative_parent_path(source).join(components);
-            } else if source_name.starts_with("@") {
-                let mut extra_module_location = self
-                    .luau_require_mode
-                    .get_source(source_name, self.extra_module_relative_location)
-                    .ok_or_else(|| {
-                        DarkluaError::invalid_resource_path(
-                            path.display().to_string(),
-                            format!("unknown source name `{}`", source_name),
-                        )
-                    })?;
+            } else if let Some(mut extra_module_location) = self
+                .luau_require_mode
+                .get_source(source_name, self.extra_module_relative_location)
+            {
                 extra_module_location.extend(components);
                 path = extra_module_location;
+            } else if source_name.starts_with("@") {
+                return Err(DarkluaError::invalid_resource_path(
+                    path.display().to_string(),
+                    format!("unknown source name `{}`", source_name),
+                ));
             }
         }
 
